@@ -32,7 +32,7 @@ def check_bindings(res: Result, lcs: List[LaunchCtx]):
         alt = root_array(alt)
         construct = f"{lc.name}|{p.name}"
         if isinstance(alt, Field) and alt.owner in ("Model", "Data"):
-          if alt.owner == spec.owner and alt.path == spec.path:
+          if (alt.owner == spec.owner and alt.path == spec.path) or getattr(alt, "alias", None) == (spec.owner, spec.path):
             same += 1
             res.ob(True, construct, sample={"kernel": lc.name, "formal": p.name, "actual": alt.text, "loc": lc.ev.loc} if n % 500 == 1 else None)
             continue
@@ -53,12 +53,6 @@ def check_bindings(res: Result, lcs: List[LaunchCtx]):
           temp += 1
           # scalars: a Model/Data scalar formal bound to a literal or expression is fine
           res.ob(True, construct)
-      # rank agreement for array formals bound to schema fields
-      if p.kind == "array" and isinstance(r, Field) and not isinstance(hv, View):
-        aspec = lc.db.sm.schema_by_path.get((r.owner, r.path))
-        if aspec is not None and aspec.is_array:
-          okr = aspec.ndim == p.ndim or (lc.name, p.name) in bind_tables.RANK_EXCEPTIONS
-          res.ob(okr, f"{lc.name}|{p.name}|rank", Finding("R-BIND.2", f"{lc.name}|{p.name}|rank", f"formal `{p.name}` has rank {p.ndim} but {r.owner}.{r.path} has rank {aspec.ndim}", lc.ev.loc))
   return n, same, temp, other
 
 
